@@ -373,10 +373,73 @@ fn all_strings(alphabet: &[u8], maxlen: usize) -> Vec<Vec<u8>> {
     all
 }
 
+/// The huge zero pieces (thorough tier) first, then the exhaustive small cases, then the small /
+/// medium zero pieces.
+pub fn enc_enumerated(thorough: bool) -> Vec<Vec<String>> {
+    let (mut cases, back) = zero_cases("zenc", thorough);
+    cases.extend(enc_enumerated_pieces(thorough));
+    cases.extend(back);
+    cases
+}
+
+// ---------------------------------------------------------------------------
+// zero pieces (`zenc` / `zdec`, see `zeros.rs`)
+
+/// Smallest `n` whose canonical encoding (limits `l`) has at least `target` bytes; the sizes
+/// `n + 1 + 2*full(n)` skip two values at every chunk boundary.
+fn zeros_for_wire_size(l: Limits, target: usize) -> usize {
+    let mut n = target.saturating_sub(1 + 2 * (target / l.ms + 2));
+    while super::zeros::expect(l, n).size < target {
+        n += 1;
+    }
+    n
+}
+
+/// `(front, back)`: the cases that go before / after the other enumerated cases.
+///
+/// front (thorough tier only, one case each so that shards share them): ONE call on a piece of
+/// `2^32 + k` bytes, `k` in {0, 1, 100} - for `zdec` the slice of the second call (everything
+/// after the first header byte `fc`) has that length.
+/// back (both tiers): every `n` up to past the third chunk for small limits, the chunk
+/// boundaries of the production limits, and one 3 MiB piece (the same code path as the huge
+/// pieces, at a size the quick tier can afford).
+fn zero_cases(verb: &str, thorough: bool) -> (Vec<Vec<String>>, Vec<Vec<String>>) {
+    let prod = Limits::prod();
+    let mut front = Vec::new();
+    if thorough {
+        for k in [0usize, 1, 100] {
+            let n = if verb == "zenc" { (1usize << 32) + k } else { zeros_for_wire_size(prod, (1usize << 32) + k + 1) };
+            front.push(vec![prod.op(), format!("{} b {}", verb, n)]);
+        }
+    }
+    let mut back = Vec::new();
+    let mut rot = 0usize;
+    for (mi, ms) in [(3usize, 5usize), (1, 1), (2, 3), (1, 2), (4, 2), (252, 300), (7, 507)] {
+        let l = Limits::custom(mi, ms).unwrap();
+        let mut ops = Vec::new();
+        for n in 0..=mi + 3 * ms + 2 {
+            rot += 1;
+            ops.push(l.op());
+            ops.push(format!("{} {} {}", verb, if rot % 3 == 0 { "c" } else { "b" }, n));
+        }
+        back.push(ops);
+    }
+    let mut ops = Vec::new();
+    for n in [0usize, 1, 2, 251, 252, 253, 254, 64259, 64260, 64261, 128267, 128268, 128269, 200_000] {
+        rot += 1;
+        ops.push(prod.op());
+        ops.push(format!("{} {} {}", verb, if rot % 3 == 0 { "c" } else { "b" }, n));
+    }
+    back.push(ops);
+    back.push(vec![prod.op(), format!("{} b {}", verb, 3usize << 20)]);
+    back.push(vec![prod.op(), format!("{} c {}", verb, 1usize << 20)]);
+    (front, back)
+}
+
 /// All payloads over {'1', FE, FD} up to length 5 (7 thorough) x five limit
 /// pairs; each payload: one borrow call, one-byte copy pieces, and every
 /// two-way split with rotating method pairs and a drain in between.
-pub fn enc_enumerated(thorough: bool) -> Vec<Vec<String>> {
+fn enc_enumerated_pieces(thorough: bool) -> Vec<Vec<String>> {
     let limits = [(3usize, 5usize), (1, 1), (2, 3), (1, 2), (4, 2)];
     let payloads = all_strings(&[0x31, 0xFE, 0xFD], if thorough { 7 } else { 5 });
     let pairs = [("b", "c"), ("c", "b"), ("a", "c"), ("b", "r"), ("c", "c"), ("b", "b")];
@@ -630,11 +693,20 @@ pub fn dec_case(rng: &mut Rng, _idx: u64, thorough: bool) -> Vec<String> {
     ops
 }
 
+/// The huge zero pieces (thorough tier) first, then the exhaustive small strings, then the small /
+/// medium zero pieces.
+pub fn dec_enumerated(thorough: bool) -> Vec<Vec<String>> {
+    let (mut cases, back) = zero_cases("zdec", thorough);
+    cases.extend(dec_enumerated_strings(thorough));
+    cases.extend(back);
+    cases
+}
+
 /// All byte strings over {00,01,02,03,04,FD,FF} up to length 5 (6 thorough)
 /// with limits (2,3): every header value 0..limit+1, out-of-radix bytes in
 /// every header position, every truncation.  One `decode` call each; strings of
 /// length 2..4 also byte by byte through `decode_copy`.
-pub fn dec_enumerated(thorough: bool) -> Vec<Vec<String>> {
+fn dec_enumerated_strings(thorough: bool) -> Vec<Vec<String>> {
     let l = Limits::custom(2, 3).unwrap();
     let strings = all_strings(&[0x00, 0x01, 0x02, 0x03, 0x04, 0xFD, 0xFF], if thorough { 6 } else { 5 });
     let mut cases = Vec::new();
